@@ -219,5 +219,21 @@ Theorem code_quantize_untouched : forall hires f,
 Proof. exact GenEqNum.go_quantize_untouched. Qed.
 Print Assumptions code_quantize_untouched.
 
+(* two facts about the soft-float that the float64 computations on float32 inputs (arcs, gradient set-up, quantize, angle
+   normalisation) rest on, from its rounding specification: widening is exact, and multiplying by 64 is exact or overflows *)
+From IVG Require Import Mul64 CvtExact.
+
+Theorem widening_exact : forall x s m e, wf_f32 x -> decode F32 x = FFin s m e ->
+  exists M E, decode F64 (f32_to_f64 x) = FFin s M E /\ -1074 <= E /\ M * 2 ^ (E + 1074) = m * 2 ^ (e + 1074).
+Proof. exact CvtExact.f32_to_f64_exact. Qed.
+Print Assumptions widening_exact.
+
+Theorem times_64_exact : forall f s m e, wf_f32 f -> decode F32 f = FFin s m e ->
+  let g := fmul F32 f c64 in
+  (g = inf_bits F32 s /\ 121 <= Z.log2 m + e) \/
+  (wf_f32 g /\ is_finite F32 g = true /\ ival32 g = 64 * ival32 f).
+Proof. exact Mul64.fmul64_finite. Qed.
+Print Assumptions times_64_exact.
+
 Example ex_code_natural : go_encode_buffer_encodeNatural [] 300 = [177; 4] /\ go_decode_buffer_decodeNatural [177; 4] = (300, 2).
 Proof. vm_compute. split; reflexivity. Qed.
